@@ -8,6 +8,7 @@ ctx = vlib.Ctx('C02')
 if ctx.replay:
     _core_check.replay(ctx); sys.exit(0)
 vlib.proof_phase(ctx)
+_core_check.source_ordering(ctx)
 res = coresuite.dispatch_suite(ctx.tier, ctx.seed)
 cov = coresuite.summarize(ctx, res, 'C02')
 if ctx.broken and not ctx.violations:
